@@ -7,7 +7,7 @@ from ..core import canon
 from ..runner import Suite
 
 MANIFEST = dict(
-    text='Lean 4 theorems on the timed send_message model, for every history and any positive poll period: completion never later than the deadline, cancellation latency <= one poll period, CancelledError only if the token fired, exactly one cancelled notification iff cancelled, cancelled-before-send writes no request, progress callbacks = exactly the matching-token notifications consumed before completion in order, callback failures irrelevant. Tied to the code by the virtual-time correspondence run over cancel/response/deadline placements x traffic x progress streams x tie orders.',
+    text='Lean 4 theorems on the timed send_message model, for every history and any positive poll period: completion never later than the deadline, cancellation latency <= one poll period, CancelledError only if the token fired, exactly one cancelled notification iff cancelled, cancelled-before-send writes no request, progress callbacks = exactly the matching-token notifications consumed before completion in order, callback failures irrelevant; the deadline holds whatever time the callbacks themselves take (AwaitSlow.runD, which refines Await.run at duration zero); a call of the high-level MCPClient is bounded by the initialize timeout plus its own. Tied to the code by the virtual-time correspondence run over cancel/response/deadline placements x traffic x progress streams x tie orders.',
     note='Trusted: Lean kernel, correspondence harness, virtual-time loop; anyio cancel scopes/fail_after semantics are sampled, not proved.',
     technique='Lean 4 proof (invariants by functional induction on a timed model) + differential correspondence run under virtual time',
     design='5/C14',
